@@ -46,7 +46,7 @@ def from_bits(bl):
 
 
 def W(tier):
-    return 8 if tier == 'thorough' else 7
+    return 9 if tier == 'thorough' else 7
 
 
 def vecs(w):
@@ -458,9 +458,9 @@ def systems(tier):
 def subchecks():
     return [
         Sub('unary', pts_unary, run_unary, engine='D',
-            bound='every vector of width 0..8 (thorough 0..9): neg, invert, shifts 0..n+1, rotations 0..n, split(k) k=1..n+1, extensions to 0..n+3'),
+            bound='every vector of width 0..8 (thorough 0..10): neg, invert, shifts 0..n+1, rotations 0..n, split(k) k=1..n+1, extensions to 0..n+3'),
         Sub('binary', pts_binary, run_binary, engine='D',
-            bound='every ordered pair of vectors of widths 0..7 (thorough 0..8): + - & | ^ * // == != hd, int operand on either side'),
+            bound='every ordered pair of vectors of widths 0..7 (thorough 0..9): + - & | ^ * // == != hd, int operand on either side'),
         Sub('index', pts_index, run_index, engine='D',
             bound='every vector of width 0..5 (thorough 0..6): every in-range int index, every slice start/stop in {None,-n-1..n+1} step in {None,1,2,3,-1,-2}, every index list of length<=3; reads, and writes of every fitting value'),
         Sub('wide', pts_wide, run_wide, engine='P',
